@@ -77,7 +77,7 @@ def r12_1(chk):
     body = list(ast.walk(rf.node))
     # resolve locals: `year` before `self.cospar_id = ...` belongs to cospar; `year`/`epoch` before `self.epoch` to epoch
     year_uses = slices.get("year", [])
-    cospar = [s for s in slices.get("self.cospar_id", [])] + [s for s in slices.get("<test>", [])]
+    cospar = [s for s in slices.get("self.cospar_id", [])]      # slices that feed the value (the emptiness test is not one)
     ys = sorted(year_uses, key=lambda s: s[3].lineno)
     if len(ys) != 2:
         raise AnalysisError(f"{rf.ref}: expected two `year` slices (designator year, epoch year)")
